@@ -158,11 +158,14 @@ TypeOK ==
 
 \* C04 on the ghost set: c is acceptable iff it was not delivered and it is newer than, or fewer
 \* than Size behind, the newest delivered counter (everything is acceptable before the first delivery).
-SpecOk(c) == c \notin seen /\ (seen = {} \/ c > SetMax(seen) \/ SetMax(seen) - c < Size)
+SpecOkN(c, newest) == c \notin seen /\ (seen = {} \/ c > newest \/ newest - c < Size)
+SpecOk(c) == SpecOkN(c, IF seen = {} THEN 0 ELSE SetMax(seen))
 
 \* the implementation decides exactly SpecOk -- by IsOk and by Add
-Exact == \A c \in Ids : /\ ImplOk(last, ring, c) = SpecOk(c)
-                        /\ AddOk(last, ring, c) = SpecOk(c)
+Exact ==
+    LET newest == IF seen = {} THEN 0 ELSE SetMax(seen) IN      \* evaluated once per state
+    \A c \in Ids : /\ ImplOk(last, ring, c) = SpecOkN(c, newest)
+                   /\ AddOk(last, ring, c) = SpecOkN(c, newest)
 
 \* Add(c) and IsOk(c);MustAdd(c) are the same function of the state
 AddEquiv ==
